@@ -409,6 +409,26 @@ func runParse(c ParseCase) (res vh.Result) {
 			res.Signature = "parse:accept-malformed"
 			return
 		}
+	case "open":
+		// entries with empty path segments: whether they are accepted is not claimed, but an accepted query spells what it
+		// was given - same fields, and it prints back unchanged
+		if err == nil {
+			if q.Component != p.comp || apricotpb.RunType_name[int32(q.RunType)] != p.rt || q.RoleName != p.role || q.EntryKey != p.entry {
+				res.Violation = fmt.Sprintf("NewQuery(%q) = {%s %s %s %s}, the string spells {%s %s %s %s}", c.Input, q.Component, q.RunType, q.RoleName, q.EntryKey, p.comp, p.rt, p.role, p.entry)
+				res.Signature = "parse:wrong-fields"
+				return
+			}
+			if q.Path() != strings.TrimSpace(c.Input) {
+				res.Violation = fmt.Sprintf("NewQuery(%q) is accepted and Path() = %q: it does not print back unchanged", c.Input, q.Path())
+				res.Signature = "parse:roundtrip"
+				return
+			}
+			if q.AbsoluteRaw() != "o2/components/"+strings.TrimSpace(c.Input) {
+				res.Violation = fmt.Sprintf("NewQuery(%q) is accepted and AbsoluteRaw() = %q", c.Input, q.AbsoluteRaw())
+				res.Signature = "parse:absraw"
+				return
+			}
+		}
 	}
 	// entries query (component/RUNTYPE/role)
 	pe, ve := refParse(c.Input, false)
@@ -442,7 +462,7 @@ func genWellFormed(t *rapid.T) string {
 }
 
 func genParse(t *rapid.T) ParseCase {
-	kind := rapid.SampledFrom([]string{"wellformed", "blanks", "entries3", "mutated", "mutated", "mutated", "random"}).Draw(t, "kind")
+	kind := rapid.SampledFrom([]string{"wellformed", "blanks", "entries3", "mutated", "mutated", "mutated", "random", "emptyseg"}).Draw(t, "kind")
 	s := genWellFormed(t)
 	switch kind {
 	case "blanks":
@@ -484,6 +504,21 @@ func genParse(t *rapid.T) ParseCase {
 		s = strings.Join(parts, "/")
 	case "random":
 		s = rapid.StringMatching(`[a-zA-Z0-9_/ -]{0,24}`).Draw(t, "rnd")
+	case "emptyseg": // an entry with an empty path segment: doubled, leading or trailing slash
+		parts := strings.SplitN(s, "/", 4)
+		e := parts[3]
+		switch rapid.IntRange(0, 3).Draw(t, "where") {
+		case 0:
+			e = e + "/"
+		case 1:
+			e = "/" + e
+		case 2:
+			e = e + "//" + genName().Draw(t, "tail")
+		case 3:
+			e = strings.Replace(e, "/", "//", 1) + "/"
+		}
+		parts[3] = e
+		s = strings.Join(parts, "/")
 	}
 	return ParseCase{Input: s, Kind: kind}
 }
